@@ -8,7 +8,7 @@
               but they are still there and become visible again when `size` is raised.
    lp_polynomial_context_t -> K : ring (Scalar.v: None = lp_Z, Some m = Z_m) and rk : var -> N, the rank
        function of the variable order (lp_variable_order_cmp x y = compare (rk x) (rk y) for x <> y).
-   Functions follow the C statement order and case splits (after the fixes of fixes/C01-*.patch; the
+   Functions follow the C statement order and case splits (of /repo with fixes/C01-*.patch applied; the
    pre-repair versions are in History_C01.v).  Data-dependent recursion takes `fuel` and returns None on
    exhaustion.  Output operands: every operation builds `result` and swaps it into the output, so the
    previous contents of the output matter only where the model takes them as an argument
